@@ -56,7 +56,11 @@ func sameBits(a, b dyn.Val) bool {
 	return a == b
 }
 
-func c05Run(cs c05Case) (fs []F) {
+func c05Run(cs c05Case) []F {
+	return core.Guard("conversion", func() []F { return c05RunRaw(cs) })
+}
+
+func c05RunRaw(cs c05Case) (fs []F) {
 	s, d := typeByName(cs.S), typeByName(cs.D)
 	name := dyn.ConvName(s, d)
 	fail := func(kind, format string, a ...any) {
@@ -278,7 +282,7 @@ func init() {
 						}
 					}
 				}
-				for _, C := range []int{8, 9, 17, 65} { // many channels
+				for _, C := range []int{8, 9, 17, 65, 256, 300} { // many channels
 					ws := []side{{3, 0, 3, 0}, {3, 1, 2, 0}, {3, 0, 2, C - 1}, {3, 1, 1, 1}}
 					for _, a := range ws {
 						for _, b := range ws {
